@@ -1,3 +1,278 @@
+import PB.Model.Subs
+import PB.Model.SubsConc
 import PB.Drv.Loop
-/- Driver stub for C14 (model not built yet): every op is rejected. -/
-def main : IO Unit := PB.Drv.lineLoop (fun _ => "bad-op")
+/- Driver for C14: one database operation per line on the sequential model (`PB.Subs`), and an acceptor for
+   recorded concurrent traces (`ev …` / `obs …` lines) on the interleaving model (`PB.SubsConc`). -/
+namespace PB.Drv.C14
+open PB.Subs
+
+/-- Conditions of the harness' little condition language (fields N : int, S : string). -/
+inductive Cond where
+  | gt (k : Int) | lt (k : Int) | eq (k : Int)
+  | sa (s : String) | sw (s : String)
+  | not (c : Cond) | and (a b : Cond) | or (a b : Cond)
+  | bad
+
+def Cond.eval : Cond → Rec → Bool
+  | .gt k, r => r.n > k
+  | .lt k, r => r.n < k
+  | .eq k, r => r.n == k
+  | .sa s, r => r.s == s
+  | .sw s, r => r.s.startsWith s
+  | .not c, r => !c.eval r
+  | .and a b, r => a.eval r && b.eval r
+  | .or a b, r => a.eval r || b.eval r
+  | .bad, _ => false
+
+def Cond.isBad : Cond → Bool
+  | .bad => true
+  | .not c => c.isBad
+  | .and a b => a.isBad || b.isBad
+  | .or a b => a.isBad || b.isBad
+  | _ => false
+
+/-- Polish notation, `fuel` bounds the recursion. Returns the condition and the remaining tokens. -/
+def parseCond : Nat → List String → Option (Cond × List String)
+  | 0, _ => none
+  | fuel + 1, t =>
+    match t with
+    | "bad" :: rest => some (.bad, rest)
+    | "gt" :: v :: rest => v.toInt?.map (fun k => (.gt k, rest))
+    | "lt" :: v :: rest => v.toInt?.map (fun k => (.lt k, rest))
+    | "eq" :: v :: rest => v.toInt?.map (fun k => (.eq k, rest))
+    | "sa" :: v :: rest => some (.sa v, rest)
+    | "sw" :: v :: rest => some (.sw v, rest)
+    | "!" :: rest => (parseCond fuel rest).map (fun (c, r) => (.not c, r))
+    | "&" :: rest =>
+      match parseCond fuel rest with
+      | some (a, r1) => (parseCond fuel r1).map (fun (b, r2) => (.and a b, r2))
+      | none => none
+    | "|" :: rest =>
+      match parseCond fuel rest with
+      | some (a, r1) => (parseCond fuel r1).map (fun (b, r2) => (.or a b, r2))
+      | none => none
+    | _ => none
+
+def okKeyChar (c : Char) : Bool := (c ≥ 'a' && c ≤ 'z') || (c ≥ '0' && c ≤ '9') || c == '/'
+def okKey (k : String) : Bool := k != "" && k != "-" && k.toList.all okKeyChar
+def okStr (s : String) : Bool := s != "" && s.toList.all (fun c => (c ≥ 'a' && c ≤ 'z') || (c ≥ '0' && c ≤ '9') || c == '-')
+def okFlags (f : String) : Bool :=
+  f == "-" || (f != "" && f.toList.all (fun c => "scdpf".toList.contains c) && !(f.toList.contains 'p' && f.toList.contains 'f'))
+
+def mkQuery (pre : String) (c : Option Cond) : Query :=
+  { bad := match c with | some c => c.isBad | none => false
+    keyOk := fun k => k.startsWith pre
+    recOk := fun r => match c with | some c => c.eval r | none => true }
+
+def parseQuery (pre : String) (toks : List String) : Option Query :=
+  if !(pre == "-" || okKey pre) then none else
+  let p := if pre == "-" then "" else pre
+  match toks with
+  | ["T"] => some (mkQuery p none)
+  | _ => match parseCond (toks.length + 1) toks with
+    | some (c, []) => some (mkQuery p (some c))
+    | _ => none
+
+/-- Interface option code: base letters L I S C (or "-"), optional "+w" (delayed writes). -/
+def parseIface (code : String) : Option Opts :=
+  let (base, delayed) := match code.splitOn "+" with
+    | [b] => (b, some false)
+    | [b, "w"] => (b, some true)
+    | _ => ("", none)
+  match delayed with
+  | none => none
+  | some d =>
+    if base == "-" then (if d then none else some { loc := false, int := false })
+    else if base == "" || !(base.toList.all (fun c => "LISC".toList.contains c)) then none
+    else if d && base != "LI" then none
+    else some { loc := base.toList.contains 'L', int := base.toList.contains 'I',
+                alwaysSecret := base.toList.contains 'S', alwaysCJ := base.toList.contains 'C', delayed := d }
+
+def parseFlags (f : String) : Meta :=
+  let l := f.toList
+  { secret := l.contains 's', cj := l.contains 'c', deleted := l.contains 'd',
+    expires := if l.contains 'p' then 1 else if l.contains 'f' then 2 else 0 }
+
+def fmtRec (r : Rec) : String :=
+  let m := r.md
+  let fl := (if m.secret then "s" else "-") ++ (if m.cj then "c" else "-") ++ (if m.deleted then "d" else "-")
+    ++ (if m.expires == 0 then "-" else if m.expires == 1 then "p" else "f")
+  s!"{r.key};{r.n};{r.s};{fl}"
+
+/-- Behaviour token of one hook phase. -/
+inductive Beh where
+  | unused | pass | veto (c : Nat) | set (n : Int)
+
+def parseBeh (recPhase : Bool) (b : String) : Option Beh :=
+  if b == "-" then some .unused
+  else if b == "p" then some .pass
+  else if b.startsWith "v" then ((b.drop 1).toString.toNat?).map .veto
+  else if recPhase && b.startsWith "s" then ((b.drop 1).toString.toInt?).map .set
+  else none
+
+def Beh.uses : Beh → Bool
+  | .unused => false
+  | _ => true
+
+def Beh.onKey : Beh → Option Nat
+  | .veto c => some c
+  | _ => none
+
+def Beh.onRec : Beh → Rec → HookRes
+  | .veto c, _ => .veto c
+  | .set n, r => .replace { r with n := n }
+  | _, _ => .pass
+
+structure D where
+  st : Option St := none
+  queries : List (String × Query) := []
+  behs : List (Nat × String × String × String) := []
+  sids : List Nat := []
+  conc : PB.SubsConc.Acc := {}
+
+def fmtCall (d : D) (c : Call) : String :=
+  let (pg, og, pp) := match d.behs.find? (·.1 == c.hook) with
+    | some (_, x) => x
+    | none => ("?", "?", "?")
+  match c.phase with
+  | .preGet => s!"h{c.hook}.pg({c.key})>{pg}"
+  | .postGet => s!"h{c.hook}.og({match c.arg with | some r => fmtRec r | none => "?"})>{og}"
+  | .prePut => s!"h{c.hook}.pp({match c.arg with | some r => fmtRec r | none => "?"})>{pp}"
+
+def fmtErr : Err → String
+  | .notfound => "notfound" | .denied => "denied" | .readonly => "readonly" | .notimpl => "notimpl"
+  | .unmanaged => "unmanaged" | .query => "query" | .veto c => s!"veto{c}"
+
+def fmtOut (d : D) (o : Out) : String :=
+  let cs := String.join (o.calls.map (fun c => " " ++ fmtCall d c))
+  match o.res with
+  | .ok none => "ok" ++ cs
+  | .ok (some r) => "ok " ++ fmtRec r ++ cs
+  | .error e => "err " ++ fmtErr e ++ cs
+
+def insertSorted (x : Nat × List Rec × Bool) : List (Nat × List Rec × Bool) → List (Nat × List Rec × Bool)
+  | [] => [x]
+  | y :: ys => if x.1 ≤ y.1 then x :: y :: ys else y :: insertSorted x ys
+
+def fmtFeeds (fs : List (Nat × List Rec × Bool)) : String :=
+  if fs.isEmpty then "-" else
+  let sorted := fs.foldr insertSorted []
+  " ".intercalate (sorted.map (fun (id, recs, closed) =>
+    s!"s{id}=[{",".intercalate (recs.map fmtRec)}]" ++ (if closed then "x" else "")))
+
+def parseSpec : List String → Option PB.SubsConc.SubSpec
+  | sid :: ic :: pre :: toks =>
+    match PB.SubsConc.tagNum 's' sid, parseIface ic, parseQuery pre toks with
+    | some id, some o, some q => if q.bad || o.delayed then none else some ⟨id, o.loc, o.int, q⟩
+    | _, _, _ => none
+  | _ => none
+
+def parseRecSpec : List String → Option Rec
+  | [key, n, s, fl] =>
+    match n.toInt? with
+    | some n => if !okKey key || !okStr s || !okFlags fl then none else some ⟨key, n, s, parseFlags fl⟩
+    | none => none
+  | _ => none
+
+def doOp (d : D) (st : St) (op : Op) : D × String :=
+  let (st', o) := step st op
+  ({ d with st := some st' }, fmtOut d o)
+
+def isNum (s : String) : Bool := s.toNat?.isSome
+
+def handle (d : D) (line : String) : D × String :=
+  let bad := (d, "bad-op")
+  let w := PB.Drv.words line
+  match w with
+  | "ev" :: _ | "obs" :: _ | "conc" :: _ | "cs" :: _ | "cw" :: _ =>
+    let (a, o) := PB.SubsConc.accept d.conc w parseSpec parseRecSpec
+    ({ d with conc := a }, o)
+  | ["db", kind, sh] =>
+    if d.st.isSome || !(sh == "0" || sh == "1") then bad else
+    let k : Option Kind := match kind with
+      | "hashmap" => some .hashmap | "bbolt" => some .bbolt | "inj" => some .inj | "reg" => some .reg | _ => none
+    match k with
+    | none => bad
+    | some k => if sh == "1" && k != .hashmap then bad else ({ d with st := some (St.init ⟨k, sh == "1"⟩) }, "ok")
+  | _ =>
+  match d.st with
+  | none => bad
+  | some st =>
+  match w with
+  | "q" :: qid :: pre :: toks =>
+    if (d.queries.find? (·.1 == qid)).isSome then bad else
+    match parseQuery pre toks with
+    | some q => ({ d with queries := d.queries ++ [(qid, q)] }, "ok")
+    | none => bad
+  | ["sub", sid, ic, qid] =>
+    match sid.toNat?, parseIface ic, d.queries.find? (·.1 == qid) with
+    | some id, some o, some (_, q) =>
+      if o.delayed || d.sids.contains id then bad else
+      let (d', out) := doOp d st (.subscribe id o q)
+      (if out == "ok" then { d' with sids := d'.sids ++ [id] } else d', out)
+    | _, _, _ => bad
+  | ["cancel", sid] =>
+    match sid.toNat? with
+    | some id => if d.sids.contains id then doOp d st (.cancel id) else bad
+    | none => bad
+  | ["drain"] =>
+    let (st', o) := step st .drain
+    ({ d with st := some st' }, fmtFeeds o.feeds)
+  | ["hook", hid, qid, pg, og, pp] =>
+    match hid.toNat?, d.queries.find? (·.1 == qid), parseBeh false pg, parseBeh true og, parseBeh true pp with
+    | some id, some (_, q), some bpg, some bog, some bpp =>
+      if (d.behs.find? (·.1 == id)).isSome then bad else
+      let h : Hook := { id := id, q := q, usesPreGet := bpg.uses, usesPostGet := bog.uses, usesPrePut := bpp.uses,
+                        preGet := fun _ => bpg.onKey, postGet := bog.onRec, prePut := bpp.onRec }
+      let (d', out) := doOp d st (.regHook h)
+      (if out == "ok" then { d' with behs := d'.behs ++ [(id, pg, og, pp)] } else d', out)
+    | _, _, _, _, _ => bad
+  | ["unhook", hid] =>
+    match hid.toNat? with
+    | some id => if (d.behs.find? (·.1 == id)).isSome then doOp d st (.cancelHook id) else bad
+    | none => bad
+  | [op, ic, key, n, s, fl] =>
+    if !(op == "put" || op == "putnew") then bad else
+    match parseIface ic, n.toInt? with
+    | some o, some n =>
+      if !okKey key || !okStr s || !okFlags fl then bad
+      else if o.delayed && (op != "put" || !(st.cfg.kind == .hashmap || st.cfg.kind == .bbolt)) then bad
+      else doOp d st (.put o ⟨key, n, s, parseFlags fl⟩ (op == "putnew"))
+    | _, _ => bad
+  | ["push", key, n, s, fl] =>
+    match n.toInt? with
+    | some n => if !okKey key || !okStr s || !okFlags fl then bad else doOp d st (.push ⟨key, n, s, parseFlags fl⟩)
+    | none => bad
+  | [op, ic, key] =>
+    match parseIface ic with
+    | some o =>
+      if o.delayed || !okKey key then bad else
+      match op with
+      | "del" => doOp d st (.modify o key .del)
+      | "mksec" => doOp d st (.modify o key .mksec)
+      | "mkcj" => doOp d st (.modify o key .mkcj)
+      | "get" => doOp d st (.get o key)
+      | _ => bad
+    | none => bad
+  | [op, ic, key, v] =>
+    match parseIface ic with
+    | some o =>
+      if o.delayed || !okKey key then bad else
+      match op with
+      | "exp" => if v == "p" then doOp d st (.modify o key (.exp 1)) else if v == "f" then doOp d st (.modify o key (.exp 2)) else bad
+      | "ins" => match v.toInt? with | some n => doOp d st (.modify o key (.ins n)) | none => bad
+      | _ => bad
+    | none => bad
+  | ["raw", key] =>
+    if !okKey key then bad else
+    (d, match sGet st.store key with | some r => fmtRec r | none => "none")
+  | ["sizes"] => (d, s!"subs={st.subs.length} hooks={st.hooks.length}")
+  | ["flush", ic] =>
+    match parseIface ic with
+    | some o => if o.delayed && (st.cfg.kind == .hashmap || st.cfg.kind == .bbolt) then doOp d st .flush else bad
+    | none => bad
+  | _ => bad
+
+end PB.Drv.C14
+
+def main : IO Unit := PB.Drv.runState ({} : PB.Drv.C14.D) PB.Drv.C14.handle
